@@ -85,8 +85,10 @@ impl<'a> Lexer<'a> {
     pub(crate) fn next_token(&mut self) -> Lexeme {
         let start_pos = self.pos;
         let first = self.bump().unwrap_or(EOF);
+        // a literal NUL in the input is a (bad) character, not the end of input
+        let at_end = self.pos == start_pos;
         let kind = match first {
-            EOF => Kind::Eof,
+            EOF if at_end => Kind::Eof,
             _ if self.in_path.in_path() => self.path(),
             byte if is_ascii_whitespace(byte) => self.whitespace(),
             b'#' => self.comment(),
